@@ -11,6 +11,9 @@ T4 == {"t1", "t2", "t3", "t4"}
 T2 == {"t1", "t2"}
 G2 == {1, 2}
 NoSamples == {}
+NoScheds == {}
+Sch2 == {1, 2}
+Sch3 == {1, 2, 3}
 S2 == {"s1", "s2"}
 S3 == {"s1", "s2", "s3"}
 N8 == {8}
@@ -22,7 +25,22 @@ Kinds == {"grpc", "grpc/scenario", "http", "http/scenario"}
 HasSharedClient(k) == k # "grpc/scenario"
 RunMatrix == {[kind |-> k, shared |-> s, inst |-> n, shots |-> ShotsPerRun + 8 * (atoi(IOEnv.VERIF_SEED) % 4)] :
                  k \in Kinds, s \in BOOLEAN, n \in InstChoices}
-Runs == SetToSeq({r \in RunMatrix : r.shared => HasSharedClient(r.kind)})
+(* rps-per-instance runs: `rps` is a LIST of parts (a composite schedule whose nested parts are created by the
+   config decode of every product of the NewRPSSchedule factory), `startup` a list too.  Every instance
+   must shoot the FULL profile: klo..khi tokens, computed from the configuration by StartupMath. *)
+SM == INSTANCE StartupMath
+Ms(n) == SM!FromInt(n * 1000000)                   \* milliseconds -> ns limbs
+OnceI(n) == [ctor |-> "once", times |-> n, ops |-> 0, dur_ms |-> 0, from_m |-> 0, dur |-> <<>>]
+ConstI(ops, ms) == [ctor |-> "const", times |-> 0, ops |-> ops, dur_ms |-> ms, from_m |-> ops * 1000, dur |-> Ms(ms)]
+Profiles == <<  <<OnceI(3), ConstI(20, 220)>>,  <<OnceI(2), ConstI(30, 150), OnceI(2)>>  >>
+Cfg(p) == [i \in 1..Len(p) |-> [ctor |-> p[i].ctor, times |-> p[i].times, ops |-> p[i].ops, dur_ms |-> p[i].dur_ms]]
+PerInst(k, n, p) == [kind |-> k, shared |-> FALSE, inst |-> n, perinst |-> TRUE, rps |-> Cfg(p),
+                     klo |-> SM!CountLo(p), khi |-> SM!CountHi(p),
+                     startup |-> <<2, n - 2>>, shots |-> n * SM!CountHi(p) + n]
+PerInstRuns == <<PerInst("http", 3, Profiles[1]), PerInst("http", 8, Profiles[2]), PerInst("grpc", 5, Profiles[1])>>
+Plain(r) == r @@ [perinst |-> FALSE, rps |-> <<>>, klo |-> 0, khi |-> 0, startup |-> <<r.inst>>]
+SharedRuns == SetToSeq({r \in RunMatrix : r.shared => HasSharedClient(r.kind)})
+Runs == [i \in 1..Len(SharedRuns) |-> Plain(SharedRuns[i])] \o PerInstRuns
 GenInit == Init /\ PrintT(<<"VERIF", ToJson([runs |-> Runs])>>)
 GenNext == UNCHANGED vars
 =============================================================================
